@@ -344,7 +344,9 @@ fn program_text(case: &Value) -> String {
 }
 
 /// marker sequence the program must print, and whether it fails
-fn expected_markers(case: &Value) -> (Vec<u32>, bool) {
+/// `reverse`: the import sets of ONE declaration taken in the opposite order (which order an
+/// implementation loads them in is not fixed by anything the property says)
+fn expected_markers(case: &Value, reverse: bool) -> (Vec<u32>, bool) {
     let libs = case["libs"].as_array().cloned().unwrap_or_default();
     let mut loaded: Vec<String> = vec![];
     let mut out: Vec<u32> = vec![];
@@ -376,7 +378,8 @@ fn expected_markers(case: &Value) -> (Vec<u32>, bool) {
         let kind = it["kind"].as_str().unwrap_or("");
         if kind == "import" || kind == "import-lib" {
             let text = it["forms"][0].as_str().unwrap_or("").to_string();
-            for s in ["a", "b"] {
+            let order = if reverse { ["b", "a"] } else { ["a", "b"] };
+            for s in order {
                 if text.contains(&format!("(lib {})", s)) && !load(s, &mut out, &mut loaded) {
                     return (out, true);
                 }
@@ -580,9 +583,19 @@ fn execute_e(case: Value) -> RunResult {
         res.log.push(format!("in-process: result={:?} stdout={:?}", r, String::from_utf8_lossy(cap)));
     }
 
-    let (exp_markers, exp_fail_model) = expected_markers(&case);
     let model_applies = file_fault == "none";
     let got_markers = markers_in(&child.stdout);
+    let (mut exp_markers, mut exp_fail_model) = expected_markers(&case, false);
+    {
+        // the other order of one declaration's import sets is as good, if that is what happened
+        let (alt_markers, alt_fail) = expected_markers(&case, true);
+        let n = got_markers.len().min(alt_markers.len());
+        if alt_markers != exp_markers && got_markers[..n] == alt_markers[..n] && got_markers != exp_markers {
+            exp_markers = alt_markers;
+            exp_fail_model = alt_fail;
+            res.count("probe.import_sets_of_a_declaration_in_the_other_order");
+        }
+    }
     let fail = |sig: &str, detail: Value, res: &mut RunResult| {
         if res.violation.is_none() {
             res.violation = Some(Violation { signature: format!("C17/{}", sig), detail });
